@@ -7,6 +7,7 @@ import json
 import os as _real_os
 import re
 import tarfile
+import traceback
 from typing import Any
 
 from ..gen import archive as gen_archive
@@ -37,7 +38,11 @@ EXPLANATION = (
     "result correspondence of the REAL create_backup_archive/read_backup_archive (real tarfile, PyYAML, json) and of the "
     "real encrypt/decrypt framing (scripted os.urandom, stand-in cipher) against the model driver, incl. ill-formed names, "
     "hostile archives (unknown/duplicate/non-file members, junk, missing manifest keys) and tampered/truncated blobs. "
-    "Search: round-trip, wrong-password, clear-text-scan, structure and per-deployment decomposition monitors on the real code."
+    "Search: round-trip, wrong-password, clear-text-scan, structure and per-deployment decomposition monitors on the real code; "
+    "a round-trip failure is classified by an independent look at the archive (tarfile + PyYAML/json + the stand-in cipher, not "
+    "the reader): which stored member is missing / unreadable / different / a proper prefix of the serialised input. Values the "
+    "reader hands back are canonicalised totally (non-str keys, dates, bytes), and a scenario the harness cannot finish is "
+    "reported with its input instead of ending the run."
 )
 LEVEL_TEXT = "proof (all backups, passwords, codecs and AEADs satisfying the stated laws) + correspondence + implementation-side monitors; encryption half partial (stand-in cipher)"
 ASSUMPTIONS = [
@@ -213,8 +218,28 @@ def sym_meta(g: Any) -> list[int]:
     return [4] + enc_opt_int(g)
 
 
+def _plain(o: Any) -> Any:
+    """Values the code under test hands back are not always JSON-like (a damaged YAML file can load as a mapping with
+    None / int / tuple keys, dates, bytes, sets): bring them to something json.dumps can sort, injectively enough, and
+    leave JSON-like values (str keys) exactly as they are."""
+    if isinstance(o, dict):
+        if all(type(k) is str for k in o):
+            return {k: _plain(v) for k, v in o.items()}
+        return {"<mapping-with-non-str-keys>": sorted([[canon(k), _plain(v)] for k, v in o.items()], key=lambda kv: kv[0])}
+    if isinstance(o, (list, tuple)):
+        return [_plain(v) for v in o]
+    if isinstance(o, (set, frozenset)):
+        return {"<set>": sorted(canon(v) for v in o)}
+    if o is None or isinstance(o, (str, int, float, bool)):
+        return o
+    return "<" + type(o).__name__ + ":" + repr(o) + ">"
+
+
 def canon(o: Any) -> str:
-    return json.dumps(o, sort_keys=True, ensure_ascii=True, default=lambda x: "<" + type(x).__name__ + ":" + repr(x) + ">")
+    try:
+        return json.dumps(_plain(o), sort_keys=True, ensure_ascii=True)
+    except Exception as e:  # never let an odd value of the code under test take the harness down
+        return "<uncanonical:" + type(e).__name__ + ":" + repr(o)[:500] + ">"
 
 
 class Tokens:
@@ -254,6 +279,8 @@ def build_inputs(case: dict) -> tuple[list[dict], dict, dict | None]:
                 cr["metadata"]["name"] = d["name"]
             if d.get("labels"):
                 cr["metadata"]["labels"] = d["labels"]
+            if d.get("annotations"):
+                cr["metadata"]["annotations"] = d["annotations"]
         cr["spec"] = d["spec"]
         deps.append(cr)
     return deps, {k: dict(v) for k, v in case["secrets"].items()}, (None if case["gens"] is None else dict(case["gens"]))
@@ -377,7 +404,7 @@ def run_backup(I: Impl, case: dict, out: Outcome, ops: list[str], impl: list[str
         out.nontrivial(("backup", canon(case)))
     # ---- monitors (S): the property stated on the real code's observable behaviour
     if wf:
-        monitor_backup(I, case, deps, secrets, gens, data, real_members, results, out)
+        monitor_backup(I, case, deps, secrets, gens, data, real_members, results, out, calls)
 
 
 def expected_entries(case: dict, deps: list[dict], secrets: dict, gens: dict | None) -> list[tuple]:
@@ -399,18 +426,109 @@ def secret_markers(secrets: dict, used: set[str]) -> list[bytes]:
     return ms
 
 
+def _serialisations(I: Impl, x: Any, fmt: str) -> list[bytes]:
+    """faithful byte serialisations of x that a writer could plausibly have meant to store (only used to *classify* a
+    stored member that does not hold x: is it the beginning of one of them?)"""
+    res: list[bytes] = []
+    try:
+        if fmt == "yaml":
+            for au in (False, True):
+                for fs in (False, None):
+                    t = I.yaml.dump(x, default_flow_style=fs, allow_unicode=au)
+                    for enc in ("utf-8", "utf-16"):
+                        res.append(t.encode(enc, "surrogatepass"))
+        else:
+            for ea in (True, False):
+                for ind in (None, 2):
+                    res.append(json.dumps(x, indent=ind, ensure_ascii=ea).encode("utf-8", "surrogatepass"))
+    except Exception:
+        pass
+    return res
+
+
+def stored_diagnosis(I: Impl, case: dict, deps: list[dict], secrets: dict, gens: dict | None,
+                     real_members: list[tuple[str, bytes]], calls: list[bytes]) -> list[tuple[str, str, str, str]]:
+    """Independent look at the archive itself (tarfile + PyYAML/json + the stand-in cipher called directly, not
+    read_backup_archive): which stored member does not hold the piece of the input it is named after?
+    -> [(member name, piece, verdict, human detail)], verdict in missing | unreadable | differs | truncated."""
+    pw = case["pw"]
+    by_name: dict[str, bytes] = {}
+    for n, b in real_members:
+        by_name.setdefault(n, b)
+    bad: list[tuple[str, str, str, str]] = []
+
+    def check(member: str, piece: str, b: bytes | None, x: Any, fmt: str) -> None:
+        if b is None:
+            bad.append((member, piece, "missing", f"no member {member!r} in the archive"))
+            return
+        try:
+            obj = I.yaml.safe_load(b) if fmt == "yaml" else json.loads(b)
+            verdict = "ok" if canon(obj) == canon(x) else "differs"
+            shown = f"loads as {obj!r:.160}"
+        except Exception as e:
+            verdict, shown = "unreadable", f"does not load ({type(e).__name__})"
+        if verdict == "ok":
+            return
+        cut = [len(s) - len(b) for s in _serialisations(I, x, fmt) if len(s) > len(b) and s.startswith(b)]
+        if cut:
+            verdict = "truncated"
+            shown += f"; it is the first {len(b)} bytes of a {len(b) + min(cut)}-byte serialisation of the input ({min(cut)} bytes cut off)"
+        bad.append((member, piece, verdict, f"member {member!r} holds {len(b)} bytes ending {b[-48:]!r} and {shown}; backed up: {x!r:.160}"))
+
+    for d, cr in zip(case["deps"], deps):
+        n = eff_name(d)
+        check(n + ".yaml", "cr", by_name.get(n + ".yaml"), cr, "yaml")
+        if n in secrets:
+            if pw is None:
+                check(n + ".secret.yaml", "secret", by_name.get(n + ".secret.yaml"), secrets[n], "yaml")
+            else:
+                blob = by_name.get(n + ".secret.enc")
+                plain = None
+                if blob is not None:
+                    for k in range(len(calls) // 2):
+                        salt, nonce = calls[2 * k], calls[2 * k + 1]
+                        if len(salt) + len(nonce) > 0 and blob.startswith(salt + nonce):
+                            plain = I.open_ct(pw, salt, nonce, blob[len(salt) + len(nonce):])
+                            if plain is not None:
+                                break
+                if blob is not None and plain is None:
+                    bad.append((n + ".secret.enc", "secret", "unreadable",
+                                f"member {n + '.secret.enc'!r} ({len(blob)} bytes) does not open under the writer's password with any (salt, nonce) the writer drew"))
+                else:
+                    check(n + ".secret.enc", "secret", plain, secrets[n], "yaml")
+        if gens and n in gens:
+            check(n + ".meta.json", "generation", by_name.get(n + ".meta.json"), {"generation": gens[n]}, "json")
+    return bad
+
+
 def monitor_backup(I: Impl, case: dict, deps: list[dict], secrets: dict, gens: dict | None, data: bytes,
-                   real_members: list[tuple[str, bytes]], results: dict[str, Any], out: Outcome) -> None:
+                   real_members: list[tuple[str, bytes]], results: dict[str, Any], out: Outcome,
+                   calls: list[bytes] | None = None) -> None:
     pw = case["pw"]
     pc = pw_class(pw)
     exp = expected_entries(case, deps, secrets, gens)
     used = {e[0] for e in exp}
     has_secret = any(e[2] is not None for e in exp)
+    # what the archive itself holds (classifying facts for M1; not a rule of its own: the property is about what is restored)
+    try:
+        stored_bad = stored_diagnosis(I, case, deps, secrets, gens, real_members, calls or [])
+    except Exception as e:
+        stored_bad = [("?", "?", "undiagnosed", f"diagnosis failed: {type(e).__name__}: {e}")]
+    for _m, piece, verdict, _d in stored_bad:
+        out.count(f"stored:{piece}:{verdict}")
+
+    def stored_fact(pieces: tuple[str, ...]) -> tuple[str, str]:
+        for _m, piece, verdict, detail in stored_bad:
+            if piece in pieces or piece == "?":
+                return f",stored={piece}:{verdict}", " -- in the archive: " + detail
+        return "", ""
+
     # M1 round trip under the writer's password
     kind, r = results.get(repr(pw), ("missing", None))
     if kind != "ok":
-        out.violations.append(Violation(f"C33/roundtrip[read_fails:{r},pw={pc}]",
-                                        f"archive written with password class {pc} cannot be read back with the same password: {r}", case))
+        fact, detail = stored_fact(("cr", "secret", "generation"))
+        out.violations.append(Violation(f"C33/roundtrip[read_fails:{r},pw={pc}{fact}]",
+                                        f"archive written with password class {pc} cannot be read back with the same password: {r}{detail}", case))
     else:
         got = [(e.name, canon(e.cr), None if e.secret is None else canon(e.secret), canon(e.generation) if e.generation is not None else None)
                for e in r.entries]
@@ -422,8 +540,10 @@ def monitor_backup(I: Impl, case: dict, deps: list[dict], secrets: dict, gens: d
                     "names" if [g[0] for g in got] != [x[0] for x in exp] else
                     "resource" if [g[1] for g in got] != [x[1] for x in exp] else
                     "secret" if [g[2] for g in got] != [x[2] for x in exp] else "generation")
-            out.violations.append(Violation(f"C33/roundtrip[{what},pw={pc}]",
-                                            f"restored entries differ from what was backed up ({what}): got {got!r:.300} expected {exp!r:.300}", case))
+            fact, detail = stored_fact({"resource": ("cr",), "secret": ("secret",), "generation": ("generation",)}.get(what, ("cr", "secret", "generation")))
+            diff = next(((g, x) for g, x in zip(got, exp) if g != x), (got, exp))
+            out.violations.append(Violation(f"C33/roundtrip[{what},pw={pc}{fact}]",
+                                            f"restored entries differ from what was backed up ({what}): got {diff[0]!r:.400} expected {diff[1]!r:.400}{detail}", case))
         m = r.manifest
         if (m.namespace, m.timestamp, m.deployment_count, m.version) != (case["ns"], case["ts"], len(deps), 1):
             out.violations.append(Violation(f"C33/roundtrip[manifest,pw={pc}]", f"manifest fields not restored: {m!r}", case))
@@ -503,6 +623,8 @@ def payload_bytes(I: Impl, p: dict, toks: Tokens) -> tuple[bytes, list[int]]:
     t = p["t"]
     if t == "yaml":
         return I.yaml.dump(p["obj"], default_flow_style=False).encode(), [1, toks.tok(p["obj"])]
+    if t == "rawyaml":  # YAML text that loads as something not JSON-like (None / int / date keys, dates, sets)
+        return p["text"].encode(), [1, toks.tok(I.yaml.safe_load(p["text"]))]
     if t == "manifest":
         return json.dumps(p["fields"], indent=2).encode(), sym_manifest(p["fields"])
     if t == "meta":
@@ -717,6 +839,8 @@ def gen_backup(rng: Any, wf: bool = True) -> dict:
             d["meta"] = False
         if rng.random() < 0.2:
             d["labels"] = {"app": gen_str(rng)}
+        if rng.random() < 0.2:  # free text a user typed: display name / description
+            d["annotations"] = {rng.choice(["deploy.llamaindex.ai/display-name", "description"]): gen_str(rng)}
         deps.append(d)
     secrets = {}
     for i, d in enumerate(deps):
@@ -823,7 +947,23 @@ def corpus() -> list[dict]:
                      "read_pws": read_pws, "rnd_seed": 1}, **kw)
 
     sec = {"API_KEY": "S3CR3T000001x0000", "multi": "line1\nline2\n", "empty": "", "uni": "ünï-日本-🚀", "bin": "\x00\x01\x7f"}
+    def nonascii(pw: Any, read_pws: list, secrets: dict, ann: str | None = "Café Zürich ☕", spec: Any = None) -> dict:
+        d: dict[str, Any] = {"name": "app", "spec": spec if spec is not None else
+                             {"projectId": "p", "replicas": 3, "repoUrl": "https://github.com/acme/app.git"}}
+        if ann is not None:
+            d["annotations"] = {"deploy.llamaindex.ai/display-name": ann}
+        return {"kind": "backup", "deps": [d], "secrets": secrets, "gens": {"app": 12}, "ns": "default",
+                "ts": "2025-01-01T00:00:00+00:00", "pw": pw, "read_pws": read_pws, "rnd_seed": 7}
+
     return [
+        # non-ASCII text in what is backed up (characters != UTF-8 bytes): a display name in the resource, with and without
+        # encryption; an unencrypted secret whose last value / an earlier value is non-ASCII; non-ASCII in the last spec value
+        nonascii(None, [None], {"app": {"API_KEY": "S3CR3T000007x0000"}}),
+        nonascii("pw", ["pw", "pW"], {"app": {"API_KEY": "S3CR3T000007x0000"}}),
+        nonascii(None, [None], {"app": {"API_KEY": "S3CR3T000008x0000", "PASSPHRASE": "contraseña-日本"}}, ann=None),
+        nonascii(None, [None], {"app": {"A_NOTE": "日本語のメモ", "TOKEN": "S3CR3T000009x0000abcdef"}}, ann=None),
+        nonascii("pw", ["pw", ""], {"app": {"A_NOTE": "日本語のメモ", "TOKEN": "S3CR3T000009x0000abcdef"}}, ann=None,
+                 spec={"description": "Übersicht für Köln", "replicas": 12345}),
         # F24: the empty password
         bk(["app"], {"app": sec}, {"app": 3}, "", ["", None, "other", "pw"]),
         bk(["app"], {"app": sec}, {"app": 3}, None, [None, "", "pw"]),
@@ -854,6 +994,12 @@ def corpus() -> list[dict]:
             {"name": "web.secret.enc", "payload": {"t": "enc", "pw": "pw", "obj": {"K": "enc"}, "salt": [1] * 16, "nonce": [2] * 12}},
             {"name": "web.meta.json", "payload": {"t": "meta", "gen": None}},
             {"name": "README.md", "payload": {"t": "junk"}}]},
+        # members that load as values json.dumps cannot sort (what a cut-off YAML file looks like: "? " -> {None: None})
+        {"kind": "hostile", "rpw": None, "members": [
+            {"name": "manifest.json", "payload": {"t": "manifest", "fields": {"version": 1, "timestamp": "t", "namespace": "n", "deployment_count": 2, "encrypted": False}}},
+            {"name": "web.yaml", "payload": {"t": "rawyaml", "text": "kind: X\nspec:\n  env: 1\n  ? "}},
+            {"name": "web.secret.yaml", "payload": {"t": "rawyaml", "text": "1: a\n'1': b\n2001-12-14: c\n~: d\nwhen: 2001-12-14\nset: !!set {a, b}\n"}},
+            {"name": "db.yaml", "payload": {"t": "rawyaml", "text": "- 1\n- ~: ~\n"}}]},
         {"kind": "blob", "pw": "pw", "m": [1, 2, 3], "op": "plain", "rnd_seed": 3},
         {"kind": "blob", "pw": "", "m": [], "op": "wrongpw", "rpw": " ", "rnd_seed": 4},
         {"kind": "blob", "pw": "pw", "m": [], "op": "trunc", "k": 43, "rnd_seed": 5},
@@ -879,7 +1025,7 @@ def run_case(I: Impl, case: dict, out: Outcome, ops: list[str], impl: list[str],
 def run(env: Env) -> Outcome:
     out = Outcome()
     out.rule = ("backups: 0-5 deployments (name pools with suffix look-alikes, boundary lengths, random DNS-1035 labels; ill-formed "
-                "names in a separate stream) x JSON-like resources x secret maps (marker + Unicode/control/YAML-special strings) x "
+                "names in a separate stream) x JSON-like resources (free-text labels / display-name / description annotations incl. non-ASCII) x secret maps (marker + Unicode/control/YAML-special strings) x "
                 "generation maps x passwords (none, empty, ASCII, Unicode, 5000 chars) x reader passwords; hostile archives; "
                 "encrypt/decrypt blobs (plain, wrong password, bit flips, truncations, junk). non-trivial = backup with a secret or "
                 "generation / hostile archive read successfully / blob decrypted; distinct by canonical case")
@@ -903,10 +1049,25 @@ def run(env: Env) -> Outcome:
     n_dec = env.budget(40, 800)
     dec_done = 0
     for ci, c in enumerate(cases):
-        run_case(I, c, out, ops, impl, ctx)
-        if c.get("kind") == "backup" and (dec_done < n_dec or (ci == 0 and env.replay is not None)) and c["deps"] and names_wf(I, c):
-            monitor_decomposition(I, c, out)
-            dec_done += 1
+        mark = (len(ops), len(impl), len(ctx))
+        try:
+            run_case(I, c, out, ops, impl, ctx)
+            if c.get("kind") == "backup" and (dec_done < n_dec or (ci == 0 and env.replay is not None)) and c["deps"] and names_wf(I, c):
+                monitor_decomposition(I, c, out)
+                dec_done += 1
+        except Exception as e:
+            # Every call into the code under test is already wrapped where it is made; what arrives here is a value it handed
+            # back that the harness could not digest. That is an observation about this scenario, not a reason to lose the run:
+            # keep the op streams aligned, report the scenario with a replayable input, go on.
+            del ops[mark[0]:], impl[mark[1]:], ctx[mark[2]:]
+            fr = traceback.extract_tb(e.__traceback__)
+            where = next((f.name for f in reversed(fr) if f.filename.endswith("c33.py")), "?")
+            out.count("scenario_aborted")
+            out.violations.append(Violation(
+                f"C33/scenario_aborted[{c.get('kind')},{type(e).__name__}@{where}]",
+                f"the scenario could not be observed to the end: {type(e).__name__}: {str(e)[:200]} in {where} "
+                f"(the code under test returned something the harness cannot canonicalise or compare)", c))
+            continue
         if c.get("kind") == "backup" and c["deps"]:
             out.sample({"names": [d["name"] for d in c["deps"]][:5], "pw": None if c["pw"] is None else c["pw"][:20],
                         "secrets": sorted(c["secrets"])[:5], "gens": c["gens"]})
